@@ -267,7 +267,13 @@ owned by one of the two sessions, provided both sessions' queues hold that playe
 confirmed parts of the two timelines coincide, with no assumption about the streams — that the
 receiver's stream is a prefix of the owner's is an invariant of the product (`PPInv_run`). With
 `C01_state_replay` (state = replay of the timeline) two deterministic games that ignore the
-Confirmed/Predicted label are in the same state at every mutually confirmed frame. -/
+Confirmed/Predicted label are in the same state at every mutually confirmed frame. The two sessions
+may be part of a larger session: inputs of players that neither of them owns arrive as they please
+(`Half.arriveOther`: any frame, any value), so the theorem applies to ANY two sessions of a session
+with three or four peers, for the players those two own; agreement on a third peer's players
+follows from the two pairs with that peer through `C01_agree_given_links` (both copies are
+prefixes of the owner's stream) — the world in which all three invariants hold for one choice of
+ghosts is not built. -/
 theorem C01_agree_two_peers (x y : (P2P × TLState) × (P2P × TLState)) (h0 : PPInv x) (hrun : PStar x y)
     (nowA nowB : Nat) (sA' sB' : P2P) (reqsA reqsB : List Request)
     (hcA : y.1.1.advanceRollbackFrame nowA [] = .ok (sA', reqsA))
